@@ -104,19 +104,24 @@ func fwr(c *ctx, msg1, msg2 []byte, failAt int, level int) {
 		c1 = c1[:len(c1)/2]
 	}
 	ra2, rb2 := "panic", "panic"
+	mkSrc := func(first bool, data []byte) io.Reader {
+		// the first source is an io.ByteReader and the second is not (the other way round for odd levels)
+		if first == (level%2 == 0) {
+			return bytes.NewReader(data)
+		}
+		return newChunkReader(data, "r3", "eof")
+	}
 	func() {
 		defer func() { recover() }()
-		// first source is an io.ByteReader, the second is not (and the other way round for odd levels)
-		var s1, s2, s3 io.Reader = bytes.NewReader(c1), newChunkReader(c2, "r3", "eof"), newChunkReader(c2, "r3", "eof")
-		if level%2 != 0 {
-			s1, s2, s3 = newChunkReader(c1, "r3", "eof"), bytes.NewReader(c2), bytes.NewReader(c2)
-		}
-		r := wsflate.NewReader(s1, dctor)
+		r := wsflate.NewReader(mkSrc(true, c1), dctor)
 		io.Copy(ioutil.Discard, r)
-		r.Reset(s2)
+		r.Reset(mkSrc(false, c2))
 		out, err := ioutil.ReadAll(r)
 		ra2 = fmt.Sprintf("%s.%s.%s", hx(out), readErrClass(err), readErrClass(r.Err()))
-		f := wsflate.NewReader(s3, dctor)
+	}()
+	func() {
+		defer func() { recover() }()
+		f := wsflate.NewReader(mkSrc(false, c2), dctor)
 		out2, err2 := ioutil.ReadAll(f)
 		rb2 = fmt.Sprintf("%s.%s.%s", hx(out2), readErrClass(err2), readErrClass(f.Err()))
 	}()
